@@ -229,7 +229,7 @@ func c14Commands() []string {
 }
 
 func checkC14(c *ev.Ctx) {
-	c.Rule("SSH_ORIGINAL_COMMAND from a 63-text catalogue (JSON objects with good/missing/mistyped fields and 8 version spellings, other JSON values, legacy k=v texts, empty, raw bytes) x LOGNAME{5} x SSH_CONNECTION{11} x argument vectors: part A (serial, CSPRNG identity checked) all commands x lognames x connections x 8 vectors; part B all vectors of 0..4 arguments over a 9-token alphabet (incl. space-containing arguments that end in a policy token) (thorough: 0..8 over 4 tokens as well) x reduced command/logname/connection sets; each compared with a reference model written from the statement. non-trivial = accepted input; distinct by input")
+	c.Rule("SSH_ORIGINAL_COMMAND from a 63-text catalogue (JSON objects with good/missing/mistyped fields and 8 version spellings, other JSON values, legacy k=v texts, empty, raw bytes) x LOGNAME{5} x SSH_CONNECTION{11} x argument vectors: part A (serial, CSPRNG identity checked) all commands x lognames x connections x 8 vectors; 300 distinct declared versions / users / hosts / addresses in one process, each revisited twice; part B all vectors of 0..4 arguments over a 9-token alphabet (incl. space-containing arguments that end in a policy token) (thorough: 0..8 over 4 tokens as well) x reduced command/logname/connection sets; each compared with a reference model written from the statement. non-trivial = accepted input; distinct by input")
 	c.Assume("transid bytes come through the csprng seam (crypto/rand import of csr/transid redirected to a recording deterministic stream)")
 	if c.ReplayCase != nil {
 		var k c14Case
@@ -253,6 +253,35 @@ func checkC14(c *ev.Ctx) {
 	}
 	c.Sample(c14Case{Cmd: cmds[0], LogName: "alice", Conn: conns[0], Args: argvs[2]})
 	c.Sample(c14Case{Cmd: "null", LogName: "alice", Conn: conns[0], Args: argvs[0]})
+	// many distinct declared values in one process, then every one of them again (forwards, then in a stride order): an
+	// answer remembered for an earlier request - a cache with eviction, an interning table - must not change what a later
+	// request declares
+	{
+		var vs []string
+		for maj := 0; maj < 12; maj++ {
+			for min := 0; min < 25; min++ {
+				vs = append(vs, fmt.Sprintf("%d.%d", maj*7%100, min*37+maj))
+			}
+		}
+		run := func(v string, legacy bool, who int) {
+			cmd := fmt.Sprintf(`{"username":"user%d","hostname":"host%d.example","sshClientVersion":%q,"ifVer":7}`, who, who, v)
+			if legacy {
+				cmd = fmt.Sprintf("IFVer=6 SSHClientVersion=%s req=user%d@host%d.example", v, who, who)
+			}
+			c14Run(c, c14Case{Cmd: cmd, LogName: fmt.Sprintf("login%d", who%7), Conn: fmt.Sprintf("10.0.%d.%d 5000 10.0.0.1 22", who%200, who%251), Args: argvs[2]}, true)
+		}
+		for i, v := range vs {
+			run(v, i%2 == 1, i)
+		}
+		for i := range vs {
+			j := (i * 7919) % len(vs)
+			run(vs[j], i%3 == 0, j+1000)
+		}
+		for i := len(vs) - 1; i >= 0; i-- {
+			run(vs[i], false, i)
+		}
+		c.Set("distinct_declared_versions_revisited", len(vs))
+	}
 	// part B: all argument vectors
 	alpha := []string{"/usr/bin/gensign", "NONS", "NSOK", "nons", "Regular", "NONS Regular", "a b c", "", "g NSOK"}
 	var vecs [][]string
